@@ -322,12 +322,18 @@ def _extract_item(unit, out, repo, rel, sel, subs, trel, vacuity, assume_mode=Fa
                           src[rs:re_].strip()))
         elif kw == "rewrite-re":
             # like rewrite, but <from> is a regular expression and <to> may use \1.. groups (logged with the matched text)
-            m = re.match(r'(\S+)\s+(\d+)\s+("(?:[^"\\]|\\.)*")\s*=>\s*("(?:[^"\\]|\\.)*")\s*$', args)
+            # count `N` = exactly N matches; `N?` = N matches or none (the construct may have been replaced by one that
+            # Verus can take as it is: the function is then verified without the outline)
+            m = re.match(r'(\S+)\s+(\d+\??)\s+("(?:[^"\\]|\\.)*")\s*=>\s*("(?:[^"\\]|\\.)*")\s*$', args)
             if not m:
                 raise ValueError("%s:%d: bad rewrite-re directive" % (trel, tl))
-            rule, cnt, frm, to = m.group(1), int(m.group(2)), json.loads(m.group(3)), json.loads(m.group(4))
+            rule, frm, to = m.group(1), json.loads(m.group(3)), json.loads(m.group(4))
+            optional = m.group(2).endswith("?")
+            cnt = int(m.group(2).rstrip("?"))
             found = [mm for mm in re.finditer(frm, src[start:end])]
-            if len(found) != cnt:
+            if optional and len(found) == 0:
+                found = []
+            elif len(found) != cnt:
                 raise AnchorLost("rewrite-re %s in %s: expected %d matches of %r, found %d" % (rule, sel, cnt, frm, len(found)))
             for mm in found:
                 repls.append((start + mm.start(), start + mm.end(), mm.expand(to), tl, rule, mm.group(0)))
